@@ -388,15 +388,39 @@ class AxisEval:
         return Ratio(a, b, out)
 
     def _call(self, e: ast.Call):
+        # a call written with keywords where the evaluator expects positional arguments (or the reverse) is a form it does
+        # not interpret (TOP -> undecided), not a crash of the checker
+        try:
+            return self._call_impl(e)
+        except IndexError:
+            raise Top(f"call form not interpreted: {u(e)[:60]}")
+
+    def _call_impl(self, e: ast.Call):
         name = _np_name(e.func)
         if name in ("sum", "nansum"):
             v = self.eval(e.args[0])
             if not isinstance(v, AV):
                 raise Top("sum of non-array")
-            return self._sum(v, self._axis_arg(e))
+            out = self._sum(v, self._axis_arg(e))
+            keep = [k for k in e.keywords if k.arg == "keepdims"]
+            if keep:
+                if u(keep[0].value) == "True":
+                    # the summed axes stay, with extent 1
+                    axes = self._axis_arg(e)
+                    axes = tuple(range(v.rank)) if axes is None else tuple(sorted((a if a >= 0 else v.rank + a) for a in axes))
+                    for a in axes:
+                        out._insert_out(a, "1")
+                elif u(keep[0].value) != "False":
+                    raise Top("keepdims argument")
+            return out
         if name == "broadcast_to":
-            v = self.eval(e.args[0])
-            shape = self.eval(e.args[1])
+            kw = {k.arg: k.value for k in e.keywords}
+            arr_e = e.args[0] if e.args else kw.get("array")
+            shape_e = e.args[1] if len(e.args) > 1 else kw.get("shape")
+            if arr_e is None or shape_e is None:
+                raise Top("broadcast_to arguments")
+            v = self.eval(arr_e)
+            shape = self.eval(shape_e)
             return self._broadcast_to(v, shape)
         if name == "repeat":
             v = self.eval(e.args[0])
